@@ -1,6 +1,7 @@
 """Imports every rule module so that the rules register themselves."""
 import r_c08  # noqa: F401
 import r_bin  # noqa: F401
+import r_cli  # noqa: F401
 import r_c01  # noqa: F401
 import r_c07  # noqa: F401
 import r_c09  # noqa: F401
